@@ -642,11 +642,26 @@ func lastFlat(text string) []string {
 	return out
 }
 
+var (
+	portMu   sync.Mutex
+	portSeen = map[int]bool{}
+)
+
+// freePort returns a free loopback port that this process has not handed out before.
 func freePort() int {
-	l, err := net.Listen("tcp", "127.0.0.1:0")
-	if err != nil {
-		panic(err)
+	portMu.Lock()
+	defer portMu.Unlock()
+	for i := 0; i < 100; i++ {
+		l, err := net.Listen("tcp", "127.0.0.1:0")
+		if err != nil {
+			panic(err)
+		}
+		p := l.Addr().(*net.TCPAddr).Port
+		l.Close()
+		if !portSeen[p] {
+			portSeen[p] = true
+			return p
+		}
 	}
-	defer l.Close()
-	return l.Addr().(*net.TCPAddr).Port
+	panic("no free port")
 }
